@@ -34,14 +34,15 @@ int main(int argc, char **argv)
       const auto probes2 = worlds::lattice2(o.spherical);
       std::vector<double> rT(probes.size()), rT2(probes2.size());
       std::vector<std::array<double,4>> rC(probes.size()), rC2(probes2.size());
-      const kit::Request req = {{{2,1,0}},{{1,0,0}},{{4,0,0}}};
-      std::vector<std::vector<double>> rB(probes.size());
+      // three request lists of different lengths: thread t uses list t % 3 (whatever the wrapper keeps of a request between the call and the query must not be shared)
+      const kit::Request REQS[3] = {{{{2,1,0}},{{1,0,0}},{{4,0,0}}}, {{{1,0,0}}}, {{{4,0,0}},{{2,0,0}},{{2,1,0}},{{1,0,0}},{{5,0,0}},{{2,3,0}}}};
+      std::vector<std::array<std::vector<double>,3>> rB(probes.size());
       for (size_t ip = 0; ip < probes.size(); ++ip)
         {
           const P3 p = query_point(o.spherical, probes[ip].x, probes[ip].y, probes[ip].depth);
           rT[ip] = native.temperature(p, probes[ip].depth);
           for (unsigned c = 0; c < 4; ++c) rC[ip][c] = native.composition(p, probes[ip].depth, c);
-          rB[ip] = native.properties(p, probes[ip].depth, req);
+          for (int k = 0; k < 3; ++k) rB[ip][k] = native.properties(p, probes[ip].depth, REQS[k]);
         }
       for (size_t i2 = 0; i2 < probes2.size(); ++i2)
         {
@@ -70,9 +71,13 @@ int main(int argc, char **argv)
               composition_3d(cw, p[0], p[1], p[2], d, c, &v);              ok = ok && kit::biteq(v, rC[ip][c]);
               ok = ok && kit::biteq(cpp.temperature_3d(p[0], p[1], p[2], d), rT[ip]);
               ok = ok && kit::biteq(cpp.composition_3d(p[0], p[1], p[2], d, c), rC[ip][c]);
-              unsigned raw[3][3] = {{2,1,0},{1,0,0},{4,0,0}};
-              std::vector<double> got(rB[ip].size());
-              properties_3d(cw, p[0], p[1], p[2], d, raw, 3, got.data());   ok = ok && kit::biteq(got, rB[ip]);
+              const int k = t % 3;
+              unsigned raw[6][3];
+              for (size_t a = 0; a < REQS[k].size(); ++a) for (int b = 0; b < 3; ++b) raw[a][b] = REQS[k][a][static_cast<size_t>(b)];
+              std::vector<double> got(rB[ip][k].size() + 8, -12345.0);   // (room behind the expected block: a longer answer must not run over the end)
+              properties_3d(cw, p[0], p[1], p[2], d, raw, static_cast<unsigned>(REQS[k].size()), got.data());
+              ok = ok && std::equal(rB[ip][k].begin(), rB[ip][k].end(), got.begin(), [](double a, double b) { return kit::biteq(a, b); }) && got[rB[ip][k].size()] == -12345.0;
+              ok = ok && properties_output_size(cw, raw, static_cast<unsigned>(REQS[k].size())) == rB[ip][k].size();
               const size_t i2 = (static_cast<size_t>(q) * 5 + static_cast<size_t>(t)) % probes2.size();
               const double x = probes2[i2].x, z = probes2[i2].z, d2 = probes2[i2].depth;
               temperature_2d(cw, x, z, d2, &v);                              ok = ok && kit::biteq(v, rT2[i2]);
